@@ -428,4 +428,6 @@ theorem treePush_stk (H : HashFn) {L : List Bytes} {t : Tree} (d : Bytes)
 non-vacuity examples and the kernel-evaluated witnesses -/
 def toyHash : HashFn := fun b => if b = [] then emptySum else b
 
+def fiveLeavesV : List Bytes := [[1], [], [2, 2], [3], [4]]
+
 end FuelVerif.BMT
